@@ -12,7 +12,7 @@ Definition expos : pos :=
          4 (Some (King,White))) 0 (Some (Rook,White))) 7 (Some (Rook,White))) 36 (Some (Pawn,White)))
          60 (Some (King,Black))) 56 (Some (Rook,Black))) 63 (Some (Rook,Black))) 35 (Some (Pawn,Black));
      turn := White; wk := true; wq := true; bk := true; bq := true; ep := Some 43 |}.
-Definition exboard : board := from_scratch expos.
+Notation exboard := (from_scratch expos).
 
 Example exboard_abs : abs_board exboard = expos.
 Proof. vm_compute. reflexivity. Qed.
@@ -61,7 +61,7 @@ Qed.
 (** the invariant of C08 holds of the example board; two different move orders reaching the
     same position give the same hash *)
 Example ex_inv : Inv exboard.
-Proof. apply inv_from_scratch. fold exboard. rewrite exboard_abs. vm_compute. reflexivity. Qed.
+Proof. apply inv_from_scratch. rewrite exboard_abs. vm_compute. reflexivity. Qed.
 
 Example ex_transposition :
   exists b1 b2 b3 b4 c1 c2 c3 c4,
@@ -74,6 +74,5 @@ Example ex_transposition :
     get_hash b2 <> get_hash c2.
 Proof.
   do 8 eexists. repeat (split; [vm_compute; reflexivity|]).
-  split; [vm_compute; reflexivity|]. split; [vm_compute; reflexivity|].
   vm_compute. discriminate.
 Qed.
